@@ -826,7 +826,7 @@ package hermes
 
 // moving groundwater table in the day loop of Run: parameters are restored from the backup taken at input time and then
 // saturated below the table, so they are a function of (backup, level) only; water content below the table is field capacity
-//@ region HermesSession.Run$1#gwchange from "if g.GRW != oldGrW {" to "if g.GRW != oldGrW {"
+//@ region HermesSession.Run$1#gwchange from "if g.GRW != oldGrW" to "if g.GRW != oldGrW"
 //@   serves C15, C06
 //@   opaque Hydro
 //@   define top() = floor(g.GRW + 1)
